@@ -58,7 +58,10 @@ Inductive case :=
 (* arbitrary bytes: native LinearCodec decode of data[1:] (value, bytes consumed) / dynamic.Unmarshal* read back *)
 | CDecode (x : ctx) (data : bytes) (native : option (value * N)) (dyn : option value)
 (* native codec only (types outside what getReflectType supports): Bytes() and the native parser *)
-| CNative (t : ty) (id : N) (v : value) (native : option bytes) (back : option value).
+| CNative (t : ty) (id : N) (v : value) (native : option bytes) (back : option value)
+(* a call that returns normally when made alone panicked while other goroutines were making ABI calls: no model
+   output equals that, and the property (same bytes / same value as the native codec) fails *)
+| CPanicked (msg : string).
 
 Definition check_case (c : case) : bool :=
   match c with
@@ -89,6 +92,7 @@ Definition check_case (c : case) : bool :=
          | Some (_ :: body) => opt_eqb value_eqb (match dec t body with Some (v', _) => Some v' | None => None end) back
          | _ => true
          end
+  | CPanicked _ => false
   end.
 
 (* The property on the implementation's outputs, without the model: a natively encodable value is encoded to
@@ -110,4 +114,5 @@ Definition spec_ok (c : case) : bool :=
       end
   | CNative _ _ v native back =>
       match native with Some _ => opt_eqb value_eqb back (Some v) | None => true end
+  | CPanicked _ => false
   end.
